@@ -45,6 +45,30 @@ INF = float("inf")
 DEFAULT_PARA = ["var", "len_scale", "nugget"]
 
 
+def _install_inf_arith():
+    """local shim: finite real +- (+-inf) = +-inf as a plain float (bounds such as `sill - nugget_upper_bound`
+    with an infinite model bound); products / quotients with inf stay unsupported"""
+    SR = symrun.SymReal
+    if getattr(SR._bin, "_gsvc_c10", False):
+        return
+    orig = SR._bin
+
+    def _bin(self, other, f, rev=False):
+        if isinstance(other, (float, np.floating)) and np.isinf(other):
+            o = float(other)
+            r = [(f(o, t) if rev else f(t, o)) for t in (-1.0, 1.0)]
+            if r[0] == r[1] and np.isinf(r[0]):
+                return r[0]
+        return orig(self, other, f, rev)
+    _bin._gsvc_c10 = True
+    SR._bin = _bin
+    symrun.SHIM_LOG.append("SymReal +- inf -> +-inf (plain float) for bounds arithmetic with infinite model bounds "
+                           "(contracts/c10.py)")
+
+
+_install_inf_arith()
+
+
 def _q(f, *a, **k):
     with warnings.catch_warnings():
         warnings.simplefilter("ignore")
@@ -302,7 +326,9 @@ def run_fit(ctx, cls, dim, sel, sill_mode, k, anis_mode="off", directional=False
     bnd = {p: list(model.arg_bounds[p]) for p in names}
     if S is not None:
         # "It needs to be in a fitting range for the var and nugget bounds" (var's bound is open)
-        ctx.require(ctx.And(ctx.gt(S, bnd["var"][0] + bnd["nugget"][0]), in_bound(ctx, S, [0.0, bnd["var"][1] + bnd["nugget"][1]], closed=True)))
+        # and there must be room to fit: strictly below the sum of (finite) upper bounds
+        ctx.require(ctx.And(ctx.gt(S, bnd["var"][0] + bnd["nugget"][0]),
+                            in_bound(ctx, S, [0.0, bnd["var"][1] + bnd["nugget"][1], "co"])))
     assert slots, "selection without any fitted parameter"
     spans = dict(SPAN)
     spans.update({"anis%d" % i: (0.5, 2.0) for i in range(n_anis)})
